@@ -53,6 +53,8 @@
 //   attr_block_of_size(target) -> (Vec<Attribute>, usize)  block whose 4-byte-AS wire
 //                                              size is target (or as close as possible)
 //   attrs_wire_len(&[Attribute]) -> usize      sum of encode_to_bytes lengths
+//   attr_key(&Attribute) / attr_keys(&[..])    comparison key modulo the extended-length
+//                                              flag bit (decoder stores wire flags)
 //   origin/as_path/med/local_pref/communities/... small constructors
 // Capabilities / codecs
 //   capability_sets() -> Vec<(&'static str, Vec<Capability>)>   each fits one OPEN
@@ -1124,10 +1126,12 @@ pub fn attr_kinds() -> Vec<(&'static str, Vec<Attribute>)> {
 /// What a conforming receiver does with an attribute of the given kind.
 #[derive(Clone, Copy, Debug, PartialEq, Eq)]
 pub enum AttrFate {
-    /// delivered unchanged
+    /// delivered unchanged, except that the stored flags are the wire flags: they
+    /// gain the extended-length bit (0x10) when the body is longer than 255 bytes
+    /// (compare with `attr_key`)
     Kept,
-    /// delivered; the stored flags gain the extended-length bit (0x10) when the
-    /// body is longer than 255 bytes (opaque attributes keep wire flags)
+    /// unknown optional transitive: delivered as an opaque attribute with the wire
+    /// flags (same extended-length remark)
     KeptExtFlag,
     /// RFC 4271 §5: unrecognised optional non-transitive -> quietly ignored
     Dropped,
@@ -1189,6 +1193,17 @@ pub fn attribute_sets() -> Vec<(String, Vec<Attribute>)> {
     }
     out.push(("all-kinds".to_string(), sort_by_code(all)));
     out
+}
+
+/// Comparison key of an attribute modulo the documented canonicalisation of
+/// the extended-length flag: the decoder stores the wire flags, so an attribute
+/// whose body exceeds 255 bytes comes back with bit 0x10 set.
+/// (code, flags & !0x10, value, binary, is_opaque)
+pub fn attr_key(a: &Attribute) -> (u8, u8, Option<u32>, Option<Vec<u8>>, bool) {
+    (a.code(), a.flags() & !0x10, a.value(), a.binary().cloned(), a.is_opaque())
+}
+pub fn attr_keys(v: &[Attribute]) -> Vec<(u8, u8, Option<u32>, Option<Vec<u8>>, bool)> {
+    v.iter().map(attr_key).collect()
 }
 
 pub fn attrs_wire_len(attrs: &[Attribute]) -> usize {
